@@ -13,6 +13,7 @@ use crate::scenario::*;
 pub fn generate(rng: &mut Rng, tier: Tier, stats: &mut GenStats) -> Scenario {
     let mut g = Gen::new(rng, tier);
     let links = if g.rng.chance(3, 10) { LinkMode::Safe } else { LinkMode::None };
+    g.foreign_pct = 12;
     let tree = g.tree(links);
     let model = Model::from_tree(&tree).unwrap();
     let cwd = g.pick_dir(&model, 30);
@@ -225,6 +226,9 @@ pub fn check(sc: &Scenario, env: &mut Env) -> Result<Outcome, HarnessError> {
             out.nontrivial = true;
         }
         walker_probes(w, &mut out);
+        if sc.tree.iter().any(|n| is_foreign(&n.path)) {
+            out.probe("tree:another-file-system-behind-a-link");
+        }
         if sc.tree.iter().any(|n| n.path.chars().any(|c| (0xF880..=0xF8FF).contains(&(c as u32)))) {
             out.probe("names:not-valid-utf8");
         }
